@@ -1644,6 +1644,7 @@ func (e *compiledFunctionLiteral) compile() (prg *Program, name unistring.String
 			if enterFunc2Mark != -1 {
 				ef2 := &enterFuncBody{
 					extensible: e.c.scope.dynamic,
+					dynLookup:  e.c.scope.isDynamic(),
 					funcType:   e.typ,
 				}
 				e.c.updateEnterBlock(&ef2.enterBlock)
@@ -1665,6 +1666,7 @@ func (e *compiledFunctionLiteral) compile() (prg *Program, name unistring.String
 				ef2 := &enterFuncBody{
 					adjustStack: true,
 					extensible:  e.c.scope.dynamic,
+					dynLookup:   e.c.scope.isDynamic(),
 					funcType:    e.typ,
 				}
 				e.c.updateEnterBlock(&ef2.enterBlock)
@@ -1682,6 +1684,7 @@ func (e *compiledFunctionLiteral) compile() (prg *Program, name unistring.String
 		if enterFunc2Mark != -1 {
 			ef2 := &enterFuncBody{
 				extensible: e.c.scope.dynamic,
+				dynLookup:  e.c.scope.isDynamic(),
 				funcType:   e.typ,
 			}
 			e.c.updateEnterBlock(&ef2.enterBlock)
